@@ -35,6 +35,8 @@ F_CONC = F_SYM + [
     "bs(a, df=4)", "bs(a, df=5, degree=2, include_intercept=True) + A", "cr(a, df=3)", "cc(a, df=3):A",
     "bs(b, knots=[2, 4], lower_bound=0, upper_bound=8, extrapolation='clip') + a", "cr(b, df=4, constraints='center')",
     "A:bs(a, df=3, degree=1)", "bs(scale(a), df=4)", "np.exp(center(a) / 4) + A", "cr(center(b), df=3):A",
+    # a stateful transform applied to the multi-column (dict-valued) output of another one: one state per sub-column
+    "scale(bs(a, df=4)) + A", "center(cr(b, df=3))", "scale(poly(a, 2)):A",
 ]
 
 A_TRAIN = [0.5, 1.25, 2.0, 3.5, 4.75, 6.0, 7.5]
@@ -97,7 +99,7 @@ def run(check: Check) -> None:
     # native leg (ground): what a symbolic cell cannot enter - hashed() (hashes the VALUES), sparse output, the narwhals materializer -
     # replayed on row maps and through a pickle round trip at one concrete point
     native_formulas = ["hashed(A, levels=5)", "hashed(A, levels=3):a + b", "hashed(B, levels=4) + C(A):center(a)", "0 + hashed(A, levels=7):hashed(B, levels=2)",
-                       "B*a", "B + a + B:a", "C(B):b + a + np.log(a + 1):B", "A:a + B:b:a"] + gen_conc[: (40 if thorough else 6)]
+                       "B*a", "B + a + B:a", "C(B):b + a + np.log(a + 1):B", "A:a + B:b:a", "scale(bs(a, df=4)) + A", "center(cr(b, df=3)):B"] + gen_conc[: (40 if thorough else 6)]
     for formula in native_formulas:
         for out, mat in (("pandas", None), ("sparse", None), ("numpy", "narwhals")):
             if mat and "hashed" in formula:
